@@ -38,7 +38,7 @@ DECIMAL = ["0.1", "0.2", "0.3", "0.4", "0.6", "0.7", "0.05", "0.15", "0.35", "0.
 
 
 # ------------------------------------------------------------------ programs
-def gen_program(rng, dyadic=False, for_stats=False):
+def gen_program(rng, dyadic=False, with_evidence=True):
     pool = DYADIC if dyadic else DECIMAL
     nf = rng.randint(1, 4)
     facts = [("f%d" % i, rng.choice(pool)) for i in range(nf)]
@@ -84,7 +84,7 @@ def gen_program(rng, dyadic=False, for_stats=False):
     nq = rng.randint(1, 4)
     queries = rng.sample(known, min(nq, len(known)))
     evidence = []
-    if rng.random() < 0.75:
+    if with_evidence and rng.random() < 0.75:
         for a in rng.sample(known, min(rng.randint(1, 2), len(known))):
             evidence.append((a, rng.random() < 0.6))
     prog = {"facts": facts, "items": items, "queries": queries, "evidence": evidence, "dyadic": dyadic}
